@@ -27,3 +27,37 @@ Theorem C09_translate_step :
                R nb U s' m /\ G s' /\ IInv2 (sidx s') /\ simm s' = simm s.
 Proof. exact sim_translate. Qed.
 Print Assumptions C09_translate_step.
+
+(* ---- the crash clause: "a re-bucketing that is interrupted never leaves a store that opens successfully with fewer keys than before".
+   Replace.v models the replacement of the old index files by the files of the translated index (store.finishIndexTranslation): the index
+   directory, the directory of the new index, the journal; one run = remove the old files that have no successor, rename every new file
+   that is still in the new directory over the file of its name, remove the journal, remove the new directory; a crash leaves the state
+   after ANY prefix of these steps and the next OpenStore runs the procedure again from the start.
+   [pending]: the journal exists and every file it lists is still in the new directory or already in place with the new contents.
+   Theorem: after any number of crashes, each after any number of steps of the run it interrupts, a run that completes leaves exactly the
+   new index (every listed name with its new contents, nothing else) and no journal.  Until the journal exists the old index is not
+   touched (regenerated fact wf_C09: the translation never renames or removes in the index directory before it writes the journal). ---- *)
+From STH Require Import Log Replace.
+Theorem C09_interrupted_replacement_is_completed_by_the_next_open :
+  forall names content ks s,
+    pending names content s \/ installed names content s ->
+    installed names content (finish (crashes s ks)).
+Proof. exact any_crashes_then_finish. Qed.
+Print Assumptions C09_interrupted_replacement_is_completed_by_the_next_open.
+
+(* the hypothesis is what the translation establishes when it writes the journal: every listed file is in the new directory *)
+Theorem C09_journal_written_is_pending :
+  forall names content old_idx, NoDup names ->
+    pending names content {| idxdir := old_idx; newdir := map (fun n => (n, content n)) names; journal := Some names |}.
+Proof. exact journal_written_is_pending. Qed.
+Print Assumptions C09_journal_written_is_pending.
+
+(* one crash, in detail: the state it leaves still satisfies the promise or has the new index installed; the next run completes or does nothing *)
+Theorem C09_crash_at_any_step :
+  forall names content s k, pending names content s ->
+    let c := crashed s k in
+    (pending names content c \/ installed names content c) /\
+    (pending names content c -> installed names content (finish c)) /\
+    (installed names content c -> finish c = c).
+Proof. exact crash_then_finish. Qed.
+Print Assumptions C09_crash_at_any_step.
